@@ -16,7 +16,7 @@ LEVEL_TEXT = ("Theorems in Coq over an abstract field with conjugation (every or
               "rlevinson itself (the 2-D array U, its column stores, the embedded call of levdown) is moreover translated from the snapshot "
               "source to a loop-IR program on every run and `run program (a, efinal)` is compared with Model.LinPred.rlevinson EXACTLY "
               "(QcC, zero tolerance: same outcome / exception class, every entry of R, U, kr, e, dtype tags; orders 1..5, both dtypes, every "
-              "error branch); for the argument checks and order 1 this equality is a theorem about the generated program (Proofs/LoopIRRlevinson.v). "
+              "error branch); this equality is a theorem about the generated program for EVERY input and order (Proofs/LoopIRRlevinsonAll.v; T9). "
               "(T6) The conversions THEMSELVES - ac2poly, ac2rc, poly2ac, poly2rc, ar2rc, rc2poly, rc2ac: thin wrappers around LEVINSON / rlevinson / "
               "levup - are translated too, their callees (other modules: imports resolved syntactically, fail-closed) embedded as calls, and "
               "`run program input` is compared EXACTLY with Model.LinPred.{ac2poly, ac2rc, poly2ac, poly2rc, rc2poly, rc2ac} (same outcome / "
@@ -25,9 +25,9 @@ LEVEL_TEXT = ("Theorems in Coq over an abstract field with conjugation (every or
 TRUSTED = [TRUSTED_LINE, "Coq 8.16.1 kernel + vm_compute (no native_compute)",
            "hand-written model coq/Model/LinPred.v (+ Model/Levinson.v), tied to linear_prediction.py/levinson.py by the correspondence run "
            "(float tolerance) and, for LEVINSON / levup / levdown / rlevinson, by the loop-IR tie (exact; theorem for LEVINSON, levup, levdown, "
-           "and for rlevinson's argument checks and order 1; rlevinson at orders >= 2: exact evaluation on sampled inputs) and, for the wrappers "
+           "and rlevinson for all inputs and orders) and, for the wrappers "
            "ac2poly / ac2rc / poly2ac / poly2rc / ar2rc / rc2poly / rc2ac, by the loop-IR tie with the callees embedded (exact evaluation on sampled inputs; moreover a theorem "
-           "for ac2poly, ac2rc - from LEVINSON's through the call - and for rc2poly - from levup's, by induction over its loop)",
+           "for ac2poly, ac2rc - from LEVINSON's through the call -, for rc2poly - from levup's, by induction over its loop - and for poly2ac, poly2rc, rc2ac - from rlevinson's)",
            "numpy.roots / numpy.poly / scipy.signal.deconvolve inside poly2lsf / lsf2poly: the arguments handed to roots and the values "
            "returned by poly are captured on the unmodified snapshot and compared with the model; root finding itself is not verified",
            "numpy.arctanh/tanh/arcsin/sin (lar/is): compared with math.log1p/expm1/asin/sin; the Coq theorems about them are over stdlib Reals",
@@ -37,9 +37,7 @@ UNPROVED = ["LSF: the roots of the sum/difference polynomials lie on the unit ci
             "minimum phase (roots inside the unit disc) <=> |k_i| < 1: search only",
             "positive definiteness of the autocorrelation returned by rc2ac/poly2ac beyond 'LEVINSON returns on it with the same k': search (Toeplitz equations)",
             "lar/is: theorems are about ln/tanh/asin/sin in R, the numpy float functions are tied by an oracle comparison only",
-            "loop-IR tie of rlevinson: `run program = Model.LinPred.rlevinson` is a theorem only for the argument checks and order 1; at orders >= 2 "
-            "(step-down loop through the embedded levdown, column stores into U, the R recursion) it is evaluated exactly on sampled inputs only",
-            "loop-IR tie of the wrappers poly2ac, poly2rc, rc2ac (they go through rlevinson): exact evaluation on sampled inputs only (no theorem `run program = model`); "
+            "loop-IR tie: ar2rc (raises NotImplementedError) by evaluation only; "
             "ac2poly / ac2rc: theorem for non-empty data, float dtype only for real-valued data with a positive lag 0; "
             "the dtype tag of rc2poly's polynomial is not compared (IR scalars carry no dtype)"]
 ASSUMPTIONS = ["exact arithmetic in the theorems; rounding error of the binary64 code is not bounded by any theorem",
